@@ -362,6 +362,8 @@ def _prop_arrays(kind: str, n: int, missing: bool, salt: int):
         v = (base * 3 - 2).astype("int32")
     elif kind == "u2":
         v = (base % 600 + 1).astype("uint16")
+    elif kind == "i1":              # (not in PROP_KINDS: used by the C05 corpus only)
+        v = (base % 100 + 7).astype("int8")
     elif kind == "bool":
         v = (base % 2 == 0)
     elif kind == "str":
